@@ -153,18 +153,21 @@ func extract(repo, leanDir string) {
 	rdsCmds := has(rset, "{ var o = &setOption{ttl: t.ttl} for _, fn := range fns { fn(o) } key = t.key(key) if o.mustNotExist { var ok, err = t.cmd.SetNX(ctx, key, value, <D>).Result() if err != nil { return err } if !ok { return ErrTTLKeyExists } return nil } var ex = <D> if o.keepTTL { ex = redis.KeepTTL } var _, err = t.cmd.Set(ctx, key, value, ex).Result() return err }") &&
 		has(rget, "{ var o = &getOption{ttl: t.ttl} for _, fn := range fns { fn(o) } key = t.key(key) var getFn = t.cmd.Get if o.removeAfterGet { getFn = t.cmd.GetDel } var v, err = getFn(ctx, key).Bytes() if err != nil { if errors.Is(err, redis.Nil) { return nil, ErrTTLKeyNotFound } return nil, err } if o.updateTTL { err = t.cmd.Expire(ctx, key, <D>).Err() if err != nil { return nil, err } } return v, nil }") &&
 		has(rds.Body("ttlRdsCache", "Remove"), "key = t.key(key) var _, err = t.cmd.Del(ctx, key).Result() return err") &&
-		has(rds.Body("ttlRdsCache", "Clear"), "var scanCmd = t.cmd.Scan(ctx, 0, t.prefix+\"*\", 0)") &&
-		has(rds.Body("ttlRdsCache", "Clear"), "for iter.Next(ctx) { err = t.cmd.Del(ctx, iter.Val()).Err()") &&
 		has(rds.Body("ttlRdsCache", "key"), "return t.prefix + k") &&
 		before(rget, "getFn(ctx, key).Bytes()", "t.cmd.Expire(")
 
+	// Clear: one SCAN whose *iterator* (it follows the cursor until 0) drives one DEL per key
+	rclear := rds.Body("ttlRdsCache", "Clear")
+	rdsClear := strings.HasPrefix(rclear, "{ var scanCmd = t.cmd.Scan(ctx, 0, t.prefix+\"*\", 0) var err = scanCmd.Err() if err != nil {") &&
+		has(rclear, "return } var iter = scanCmd.Iterator() for iter.Next(ctx) { err = t.cmd.Del(ctx, iter.Val()).Err() if err != nil {") &&
+		strings.Count(rclear, "t.cmd.") == 2 && strings.Count(rclear, "scanCmd.") == 2
 	b := gofacts.LeanBool
 	var sb strings.Builder
 	sb.WriteString("import Nv.Model.C05\nset_option linter.unusedVariables false\n")
 	sb.WriteString("/-! GENERATED by `c05 extract` from cache/ttlmem.go + cache/ttlrds.go — do not edit. -/\nnamespace Nv.Gen.C05\n")
 	fmt.Fprintf(&sb, "def cfg : Nv.C05.Cfg := ⟨.%s, .%s, .%s⟩\n", setExpiry, indexOrder, unit)
-	fmt.Fprintf(&sb, "def facts : Nv.C05.Facts := ⟨%s, %s, %s, %s, %s, %s, %s, %s, %s, %s⟩\n", b(locks), b(getGuard), b(getRemove),
-		b(getUpdate), b(setExisting), b(evictOne), b(removeBoth), b(optDefaults), b(deadlineShape && kernel != ""), b(rdsCmds))
+	fmt.Fprintf(&sb, "def facts : Nv.C05.Facts := ⟨%s, %s, %s, %s, %s, %s, %s, %s, %s, %s, %s⟩\n", b(locks), b(getGuard), b(getRemove),
+		b(getUpdate), b(setExisting), b(evictOne), b(removeBoth), b(optDefaults), b(deadlineShape && kernel != ""), b(rdsCmds), b(rdsClear))
 	if kernel != "" {
 		sb.WriteString(kernel)
 	} else {
@@ -175,8 +178,8 @@ func extract(repo, leanDir string) {
 		fmt.Fprintln(os.Stderr, err)
 		os.Exit(2)
 	}
-	fmt.Printf("extract C05: setExpiry=%s indexOrder=%s rdsUnit=%s facts(locks,getGuard,getRemove,getUpdate,setExisting,evictOne,removeBoth,optDefaults,deadline,rdsCmds)=%v,%v,%v,%v,%v,%v,%v,%v,%v,%v kernel=%v\n",
-		setExpiry, indexOrder, unit, locks, getGuard, getRemove, getUpdate, setExisting, evictOne, removeBoth, optDefaults, deadlineShape, rdsCmds, kernel != "")
+	fmt.Printf("extract C05: setExpiry=%s indexOrder=%s rdsUnit=%s facts(locks,getGuard,getRemove,getUpdate,setExisting,evictOne,removeBoth,optDefaults,deadline,rdsCmds,rdsClearIterates)=%v,%v,%v,%v,%v,%v,%v,%v,%v,%v,%v kernel=%v\n",
+		setExpiry, indexOrder, unit, locks, getGuard, getRemove, getUpdate, setExisting, evictOne, removeBoth, optDefaults, deadlineShape, rdsCmds, rdsClear, kernel != "")
 }
 
 // ---------------------------------------------------------------- running a script on the real code
@@ -188,6 +191,7 @@ type world struct {
 	clock int64 // unix ms, atomic
 	mem   cache.TTLCache
 	rds   cache.TTLCache
+	frg   cache.TTLCache // a second redis-backed cache on the same server under another prefix (Clear must not touch it)
 	fake  *c05fake.Server
 	close func()
 	mon   *monitor
@@ -206,6 +210,12 @@ func newWorld(mode string, size int, dttl, clock int64) *world {
 		w.fake = c05fake.New(w.nowMs)
 		cl := w.fake.Client()
 		w.rds = cache.NewTTLRdsCache(cl, "p:", dttl)
+		// the other prefix sorts before ("o:") or after ("q:") this cache's keys in the keyspace, chosen by the start clock
+		fp := "q:"
+		if clock%2 == 0 {
+			fp = "o:"
+		}
+		w.frg = cache.NewTTLRdsCache(cl, fp, 0)
 		w.close = func() { restore(); _ = cl.Close() }
 	}
 	w.mon = newMonitor(w)
@@ -309,6 +319,15 @@ func parseOp(f []string) (op, bool) {
 		}
 		o.key, o.rm, o.hasUpd, o.upd = f[1], f[2] == "1", has, u
 		return o, true
+	case f[0] == "fset" && len(f) == 3:
+		if !parseKey(f[1]) || !isNat(f[2]) {
+			return o, false
+		}
+		o.key, o.val = f[1], normNat(f[2])
+		return o, true
+	case f[0] == "fget" && len(f) == 2:
+		o.key = f[1]
+		return o, parseKey(f[1])
 	case f[0] == "del" && len(f) == 2:
 		o.key = f[1]
 		return o, parseKey(f[1])
@@ -473,6 +492,21 @@ func runCase(c corr.Case) corr.Result {
 			}
 			continue
 		}
+		if o.kind == "fset" || o.kind == "fget" {
+			if w.mode == "mem" {
+				res.Outs = append(res.Outs, "bad-op")
+				continue
+			}
+			fo := guarded(func() string {
+				if o.kind == "fset" {
+					return showErr(w.frg.Set(ctx, canonKey(o.key), []byte(o.val)))
+				}
+				return showGet(w.frg.Get(ctx, canonKey(o.key)))
+			})
+			res.Hits = append(res.Hits, w.mon.foreign(o, fo)...)
+			res.Outs = append(res.Outs, fo)
+			continue
+		}
 		var mo, ro string
 		if w.mode != "rds" {
 			mo = guarded(func() string { return w.apply(w.mem, o) })
@@ -516,6 +550,7 @@ type shadow struct {
 	dlKnown     bool   // false after a keep-ttl Set that may have hit an evicted key
 	touch       int    // sequence number of the last touch
 	afterExpiry bool   // stored by a keep-ttl Set on an elapsed key
+	gone        string // why the key is not alive any more (removed | cleared | consumed | seen absent)
 }
 
 type backend struct {
@@ -531,6 +566,7 @@ type backend struct {
 }
 
 type monitor struct {
+	frg        map[string]string // foreign-prefix keys: latest value (they never expire and nothing removes them)
 	w          *world
 	mem, rds   *backend
 	admissible bool // the script so far lies inside the mem/rds comparison of the property
@@ -543,7 +579,7 @@ func newBackend(name string) *backend {
 }
 
 func newMonitor(w *world) *monitor {
-	return &monitor{w: w, mem: newBackend("mem"), rds: newBackend("rds"), admissible: w.dttl > 0, seen: map[string]bool{}}
+	return &monitor{frg: map[string]string{}, w: w, mem: newBackend("mem"), rds: newBackend("rds"), admissible: w.dttl > 0, seen: map[string]bool{}}
 }
 
 func (m *monitor) add(key, what string) {
@@ -552,6 +588,27 @@ func (m *monitor) add(key, what string) {
 	}
 	m.seen[key] = true
 	m.hits = append(m.hits, corr.Hit{Key: key, What: what})
+}
+
+// foreign: a key stored through another cache (other prefix) on the same redis is only ever changed through that cache.
+func (m *monitor) foreign(o op, out string) []corr.Hit {
+	key := canonKey(o.key)
+	if o.kind == "fset" {
+		if out == "ok" {
+			m.frg[key] = o.val
+		} else {
+			m.add("C05:rds:foreign-prefix-unexpected-result", fmt.Sprintf("Set of %s through a cache with another prefix returned %s", key, out))
+		}
+		return m.finish()
+	}
+	want, ok := m.frg[key]
+	switch {
+	case ok && out != "val:"+want:
+		m.add("C05:rds:foreign-prefix-key-touched", fmt.Sprintf("key %s of a cache with another prefix on the same redis (value %s, no expiry) now reads %s: Clear/Remove of this cache must not touch it", key, want, out))
+	case !ok && out != "notfound":
+		m.add("C05:rds:foreign-prefix-key-touched", fmt.Sprintf("key %s was never set through the other-prefix cache, yet reads %s", key, out))
+	}
+	return m.finish()
 }
 
 func (m *monitor) tick() {
@@ -619,7 +676,8 @@ func (m *monitor) check(b *backend, o op, out string) bool {
 	lifetime := s != nil && s.alive // the key was set and not removed/consumed: whatever goes wrong concerns its time-to-live
 	flag := func(site, what string) {
 		flagged = true
-		if b.name == "rds" && lifetime {
+		if b.name == "rds" && lifetime && (site == "set-ignores-expiry" || site == "must-not-exist-overwrote-live-key" ||
+			site == "get-serves-dead-key" || site == "live-key-missed" || site == "race-nobody-wins") {
 			// one root cause, many symptoms: on redis the key does not live for `ttl` seconds
 			m.add("C05:rds:ttl-not-honoured", what+" [symptom: "+site+"]")
 			return
@@ -687,7 +745,10 @@ func (m *monitor) check(b *backend, o op, out string) bool {
 		case strings.HasPrefix(out, "val:"):
 			v := out[4:]
 			if s.dead(sec) {
-				why := "was never set, or was removed / cleared / consumed by a remove-after-get read"
+				why := "was never set"
+				if s != nil && s.gone != "" {
+					why = "was " + s.gone + " after its last Set"
+				}
 				if s != nil && s.alive {
 					why = fmt.Sprintf("expired (deadline %d < clock %d)", s.dl, sec)
 				}
@@ -698,7 +759,7 @@ func (m *monitor) check(b *backend, o op, out string) bool {
 			if s != nil {
 				s.touch = len(b.touches) - 1
 				if o.rm {
-					s.alive = false
+					s.alive, s.gone = false, "consumed by a remove-after-get read"
 				} else if o.hasUpd {
 					ttl := m.effTTL(o)
 					if b.name == "rds" && ttl <= 0 {
@@ -730,8 +791,8 @@ func (m *monitor) check(b *backend, o op, out string) bool {
 					flag("live-key-missed", fmt.Sprintf("Get %s missed on the redis-backed cache although it was set with a positive ttl whose deadline (%d) is not reached (clock %d)", key, s.dl, sec))
 				}
 			}
-			if s != nil {
-				s.alive = false
+			if s != nil && s.alive {
+				s.alive, s.gone = false, "seen absent by a Get"
 			}
 		default:
 			flag("unexpected-result", fmt.Sprintf("Get %s returned %s", key, out))
@@ -740,12 +801,14 @@ func (m *monitor) check(b *backend, o op, out string) bool {
 		if out != "ok" {
 			flag("unexpected-result", fmt.Sprintf("Remove %s returned %s", key, out))
 		}
-		if s != nil {
-			s.alive = false
+		if s != nil && s.alive {
+			s.alive, s.gone = false, "removed (Remove)"
 		}
 	case "clear":
 		for _, s := range b.keys {
-			s.alive = false
+			if s.alive {
+				s.alive, s.gone = false, "cleared (Clear)"
+			}
 		}
 	case "race":
 		if out != "wins:0" && out != "wins:1" {
@@ -757,8 +820,8 @@ func (m *monitor) check(b *backend, o op, out string) bool {
 		if out == "wins:0" && s.present(nowMs) && !b.maybeEvicted && (b.name == "mem" && m.w.size > 0 || b.name == "rds" && m.admissible) {
 			flag("race-nobody-wins", fmt.Sprintf("no remove-after-get reader of live key %s succeeded", key))
 		}
-		if s != nil {
-			s.alive = false
+		if s != nil && s.alive {
+			s.alive, s.gone = false, "consumed by a remove-after-get read"
 		}
 	}
 	return flagged
@@ -920,6 +983,12 @@ func genWild(r *rng.R, mode string, n int) corr.Case {
 			g.emit("clear")
 		case x == 15 && r.Chance(1, 2):
 			g.emit(fmt.Sprintf("race %s %d", g.key(), r.Range(2, 6)))
+		case x == 16 && mode != "mem" && r.Chance(1, 2):
+			if r.Bool() {
+				g.emit(fmt.Sprintf("fset %s %s", g.key(), g.val()))
+			} else {
+				g.emit("fget " + g.key())
+			}
 		default:
 			g.emit("tick " + g.tickTok())
 		}
@@ -1044,9 +1113,61 @@ func genBound(r *rng.R) corr.Case {
 	return corr.Case{Tag: "bound-mem", Lines: g.lines}
 }
 
+// more live keys under the prefix than one SCAN page (11..60), keys of another prefix on the same redis, then Clear
+// and a Get of every key on both back-ends (in-memory size large enough, positive ttls far away: inside the
+// comparison domain), then the other-prefix keys must still be there
+func genClearMany(r *rng.R) corr.Case {
+	n := r.Range(11, 60)
+	if r.Chance(1, 6) {
+		n = r.Range(1, 12)
+	}
+	nf := r.PickInt(0, 1, 1, 3, 9, 10, 11, 25)
+	g := &gen{r: r, nkeys: n, ttls: []int64{60, 90, 300}}
+	mode := r.Pick("both", "both", "both", "rds")
+	g.emit(fmt.Sprintf("new %s %d %d %d", mode, n+r.Intn(3), r.PickI64(60, 300), clock0+int64(r.Intn(1000))))
+	rounds := 1 + r.Intn(2)
+	for round := 0; round < rounds; round++ {
+		m := n
+		if round > 0 {
+			m = r.Range(1, n)
+		}
+		perm := make([]int, m)
+		for i := range perm {
+			perm[i] = i
+		}
+		for i := m - 1; i > 0; i-- {
+			j := r.Intn(i + 1)
+			perm[i], perm[j] = perm[j], perm[i]
+		}
+		fi := 0
+		for _, k := range perm {
+			g.emit(fmt.Sprintf("set k%d %s %s 0 0", k, g.val(), g.ttlTok(false)))
+			if fi < nf && r.Chance(1, 3) {
+				g.emit(fmt.Sprintf("fset k%d %s", fi, g.val()))
+				fi++
+			}
+			if r.Chance(1, 15) {
+				g.emit("tick " + strconv.Itoa(r.Range(1, 400)))
+			}
+		}
+		for ; fi < nf; fi++ {
+			g.emit(fmt.Sprintf("fset k%d %s", fi, g.val()))
+		}
+		if r.Chance(1, 4) {
+			g.emit("get " + g.key() + " 0 -")
+		}
+		g.emit("clear")
+		g.probeAll()
+		for i := 0; i < nf; i++ {
+			g.emit(fmt.Sprintf("fget k%d", i))
+		}
+	}
+	return corr.Case{Tag: "clear-many-" + mode, Lines: g.lines}
+}
+
 func genMalformed(r *rng.R) corr.Case {
 	junk := []string{"", "set", "set k1", "set k1 x - 0 0", "set 1 2 - 0 0", "set k1 2 - 2 0", "get k1", "get k1 2 -", "get k1 0 x", "tick -5", "tick x",
-		"race k1 0", "race k1", "del", "del 5", "clear now", "new mem 1", "new foo 1 0 5", "new mem -1 0 5", "new mem 1 - 5", "SET k1 1 - 0 0", "set k1 1 -- 0 0", "set k1 1 + 0 0", "get k1 0 1e3"}
+		"race k1 0", "race k1", "fset k1", "fget", "fset k1 x", "fget 3", "del", "del 5", "clear now", "new mem 1", "new foo 1 0 5", "new mem -1 0 5", "new mem 1 - 5", "SET k1 1 - 0 0", "set k1 1 -- 0 0", "set k1 1 + 0 0", "get k1 0 1e3"}
 	lines := []string{r.Pick("new mem 2 0 1700000000000", "new both 2 3 1700000000000", "new", "new mem x 0 5", "new rds 1 1 1 1")}
 	for i := 0; i < r.Range(3, 10); i++ {
 		if r.Chance(1, 2) {
@@ -1058,9 +1179,25 @@ func genMalformed(r *rng.R) corr.Case {
 	return corr.Case{Tag: "malformed", Lines: lines}
 }
 
+func clearManyFixed(n int, clock int64) []string {
+	lines := []string{fmt.Sprintf("new both %d 300 %d", n, clock)}
+	for i := 0; i < n; i++ {
+		lines = append(lines, fmt.Sprintf("set k%d %d - 0 0", i, i+1))
+	}
+	lines = append(lines, "fset k0 7", "clear")
+	for i := 0; i < n; i++ {
+		lines = append(lines, fmt.Sprintf("get k%d 0 -", i))
+	}
+	return append(lines, "fget k0")
+}
+
 func fixedCases() []corr.Case {
 	c := func(tag string, lines ...string) corr.Case { return corr.Case{Tag: tag, Lines: lines} }
 	return []corr.Case{
+		// Clear with more keys than one SCAN page (default COUNT 10), one key of another prefix before / after them
+		c("boundary-clear-40-keys", clearManyFixed(40, 1700000000001)...),
+		c("boundary-clear-11-keys", clearManyFixed(11, 1700000000000)...),
+		c("boundary-clear-10-keys", clearManyFixed(10, 1700000000000)...),
 		// F02: set; ttl elapses; set must-not-exist
 		c("witness-expired-must-not-exist", "new mem 2 0 1700000000000", "set k1 5 3 0 0", "tick 4000", "set k1 6 - 1 0", "get k1 0 -"),
 		// F02': keep-ttl on an elapsed key stores the value under the dead deadline
@@ -1094,7 +1231,7 @@ func spec() corr.Spec {
 			case "thorough":
 				return 60000
 			}
-			return 100000
+			return 30000
 		},
 		Gen: func(r *rng.R, tier string, i int) corr.Case {
 			n := r.Range(6, 30)
@@ -1110,8 +1247,10 @@ func spec() corr.Spec {
 				return genWild(r, "both", n)
 			case x < 17:
 				return genWild(r, "rds", n)
-			case x < 19:
+			case x < 18:
 				return genBound(r)
+			case x < 19:
+				return genClearMany(r)
 			}
 			return genMalformed(r)
 		},
@@ -1128,9 +1267,9 @@ func spec() corr.Spec {
 			}
 			return sets >= 1 && hits >= 1
 		},
-		Rule: "seeded scripts over Set(ttl|default, must-not-exist, keep-ttl) / Get(plain, remove-after-get, update-ttl) / Remove / Clear / clock advances (sub-second, on, before and after deadlines) / n concurrent remove-after-get readers; classes: wild-mem, wild-rds, wild-both (any ttl sign, sizes 0..4, default ttl <=0 and >0), admissible-both (the comparison domain of the property), bound-mem (more keys than size, then a probe of all keys), malformed; a case is non-trivial when >= 1 Set succeeded and >= 1 Get hit; distinct = distinct script text",
+		Rule: "seeded scripts over Set(ttl|default, must-not-exist, keep-ttl) / Get(plain, remove-after-get, update-ttl) / Remove / Clear / clock advances (sub-second, on, before and after deadlines) / n concurrent remove-after-get readers; classes: wild-mem, wild-rds, wild-both (any ttl sign, sizes 0..4, default ttl <=0 and >0), admissible-both (the comparison domain of the property), bound-mem (more keys than size, then a probe of all keys), clear-many (11..60 live keys + 0..25 keys of another prefix on the same redis, Clear, Get of every key on both back-ends, other-prefix keys still there; the fake pages SCAN like redis), malformed; a case is non-trivial when >= 1 Set succeeded and >= 1 Get hit; distinct = distinct script text",
 		Assumptions: []string{
-			"redis behaves as the in-process RESP fake (go/lib/c05fake) and the Lean `Rds` model say: SET [PX|EX|KEEPTTL] [NX], SETNX, GET, GETDEL, EXPIRE, DEL, SCAN; expired when now > when; lazy expiry",
+			"redis behaves as the in-process RESP fake (go/lib/c05fake) and the Lean `Rds` model say: SET [PX|EX|KEEPTTL] [NX], SETNX, GET, GETDEL, EXPIRE, multi-key DEL, cursor-paged SCAN MATCH/COUNT (default 10 keys examined per call, short and empty pages, cursor 0 ends; keys present throughout are returned); expired when now > when; lazy expiry",
 			"a real go-redis v9 client is used, so its duration formatting (usePrecise/formatMs/formatSec) is exercised, not assumed",
 			"clock + ttl stays inside int64 (ttl magnitudes up to 2e9 are generated)",
 			"concurrent callers: each public call of the in-memory cache is one critical section (lock facts regenerated: Lock + defer Unlock first in Set/Get/Remove/Clear)",
